@@ -20,7 +20,7 @@ def gen_image(rng, n, arch=None, small_identity=False):
         "path": path,
         "mtime": pools.anyint(rng, [0, 1410855216, 2 ** 31 + 5, 1], big=0.06),
         "size": pools.anyint(rng, [1, 4603248640, 2 ** 40 + 7, 512]),
-        "volume_id": rng.choice([None, "Fedora 20 x86_64", "V" * 32, "ünï", "Fedora-\udcff-Live"]),
+        "volume_id": rng.choice([None, "Fedora 20 x86_64", "V" * 32, "ünï", "Fedora-\udcff-Live", " padded ", "tail ", " ", "two  blanks"]),
         "type": itype, "format": fmt, "arch": arch,
         "disc_number": rng.choice([1, 1, 2, 3, 10, 11]), "disc_count": rng.choice([1, 3, 12]),
         "checksums": dict((t, hexstr(rng, {"md5": 32, "sha1": 40, "sha256": 64, "sha512": 128}[t]))
